@@ -4,13 +4,9 @@ Only property theorems and non-vacuity examples live here; helper lemmas are in 
 -/
 import Prs.Proofs.Symdel
 import Prs.Proofs.LevDP
-import Prs.Spec.Scores
+import Prs.Model.Engines
 namespace Prs
 variable {α : Type} [DecidableEq α]
-
-/-- `symdel(xs, max_edits = k)` / `nearest_neighbor(xs, k)` in the default mode -/
-def symdelDefault (k : Nat) (xs : List (List α)) : List (Trip Nat) :=
-  symdelSelf (delVariants k) (levScore k) xs
 
 /-- EXACTNESS, for every alphabet, every list of strings (empty strings, duplicates, strings shorter
 than k included) and every k: a triplet is reported iff it is an ordered pair of distinct positions
